@@ -868,6 +868,27 @@ pub fn main(args: &util::Args) {
     let mut out = String::new();
     let thorough = args.tier == "thorough";
 
+    // ---- replay of one program
+    if let Some(i) = args.rest.iter().position(|a| a == "--file") {
+        let f = &args.rest[i + 1];
+        let src = std::fs::read_to_string(f).expect("read replay file");
+        let dir = util::scratch_dir("c09r");
+        let id = "replay";
+        match util::compile_text(&dir, &src) {
+            Outcome::Ok(c) => {
+                writeln!(out, "{}\tSRC\t{}", id, crate::sexp::esc_line(&src)).unwrap();
+                c01::dump_case(id, &c, &mut out);
+                tie_line(id, &c, &mut out);
+            }
+            Outcome::Err(stage, msgs) => writeln!(out, "{}\tREJECT\t{}\t{}\t{}", id, stage, crate::sexp::esc_line(&msgs.join(" | ")), crate::sexp::esc_line(&src)).unwrap(),
+            Outcome::Panic(m) => writeln!(out, "{}\tPANIC\t{}\t{}", id, crate::sexp::esc_line(&m), crate::sexp::esc_line(&src)).unwrap(),
+        }
+        let _ = std::fs::remove_dir_all(&dir);
+        let _ = std::fs::create_dir_all(&args.out);
+        std::fs::write(args.out.join("c09.cases.tsv"), out).unwrap();
+        return;
+    }
+
     // ---- (1) tie on the corpus
     for d in util::corpus_pipeline_dirs() {
         let path = d.join("main.gom");
